@@ -563,4 +563,94 @@ theorem unrecorded_read_refuted :
   revert this
   decide
 
+/-! ## Layer 4: two sources which yield one output key (fix 70b888c)
+
+`converge` asks that every key has one owner in *every* environment. A history may leave that space for a while (an
+entry pasted into a second YAML file before it is cut from the first) - what is stored under the shared key then is the
+page generated last, and nothing is claimed about it. What the code owes is that the page is still there, from the
+remaining file, once the key has one owner again. -/
+
+/-- **The rule added by the fix is conservative**: on projects in which every key has one owner, the operations that
+generate the other sources of a dropped key again (`runShared`) are the operations of `converge` (`run`), so the open
+project still converges to the clean build. -/
+theorem converge_shared (P : Parser Path Key Page Content) (owner : Key → Path) (srcs : List Path) (keys : List Key)
+    (owns : ∀ e p k pg, (k, pg) ∈ P.parse e p → owner k = p)
+    (post : Store Path Key Page → Result) (e₀ : Env Path Content)
+    (xs : List (Op Path Content × List Path)) (hdep : CoversAll P srcs e₀ xs) :
+    let final := runShared P srcs keys post (St.init P srcs post e₀) xs
+    final.env = envAfter e₀ (xs.map (·.1)) ∧
+    final.store = storeOf P srcs (envAfter e₀ (xs.map (·.1))) ∧
+    deliver post final = post (storeOf P srcs (envAfter e₀ (xs.map (·.1)))) := by
+  intro final
+  have heq : final = run P srcs post (St.init P srcs post e₀) xs :=
+    runShared_eq_run P owner srcs owns keys post xs (St.init P srcs post e₀) (inv_init P owner srcs owns post e₀) hdep
+  rw [heq]
+  exact converge P owner srcs owns post e₀ xs hdep
+
+/-- two extracts files: every number in the content of file `p` is an entry, entry `r` yields the page `200 + r`;
+the page says which file it came from -/
+def twin : Parser Nat Nat Nat (List Nat) :=
+  { parse := fun e p => match e p with
+      | some c => if p = 1 ∨ p = 2 then c.map (fun r => (200 + r, 10 * p + r)) else []
+      | none => [],
+    reads := fun _ p => [p],
+    footprint := by
+      intro e e' p h
+      have hp := h p (by simp)
+      simp only [hp] }
+
+/-- file 1 defines `foo` (0) and `bar` (1), file 2 defines `qux` (2) -/
+def twinEnv : Env Nat (List Nat) := fun p =>
+  match p with
+  | 1 => some [0, 1]
+  | 2 => some [2]
+  | _ => none
+
+def twinPost (s : Store Nat Nat Nat) : Option (Nat × Nat) × Option (Nat × Nat) × Option (Nat × Nat) :=
+  (s 200, s 201, s 202)
+
+/-- `foo` is pasted into file 2, then file 2 is deleted / the paste is undone: each operation re-parses the touched file -/
+def twinDelete : List (Op Nat (List Nat) × List Nat) := [(.update 2 [2, 0], [2]), (.delete 2, [2])]
+def twinUndo : List (Op Nat (List Nat) × List Nat) := [(.update 2 [2, 0], [2]), (.update 2 [2], [2])]
+
+/-- **The code before the fix lost the page** (corpus cases 009 and 010): with the re-parse sets the obligation asks
+for, after the second file let go of `foo` the store holds no page 200 although a clean build of the final contents
+has the one from file 1 - both final environments give every key one owner. -/
+theorem shared_key_refuted :
+    (CoversAll twin [1, 2] twinEnv twinDelete ∧
+      (run twin [1, 2] twinPost (St.init twin [1, 2] twinPost twinEnv) twinDelete).store 200 = none ∧
+      storeOf twin [1, 2] (envAfter twinEnv (twinDelete.map (·.1))) 200 = some (10, 1)) ∧
+    (CoversAll twin [1, 2] twinEnv twinUndo ∧
+      (run twin [1, 2] twinPost (St.init twin [1, 2] twinPost twinEnv) twinUndo).store 200 = none ∧
+      storeOf twin [1, 2] (envAfter twinEnv (twinUndo.map (·.1))) 200 = some (10, 1)) := by
+  have hcov : ∀ (e : Env Nat (List Nat)) (op : Op Nat (List Nat)), op.touched = some 2 → Covers twin [1, 2] e op [2] := by
+    intro e op hop s hs q hq hor
+    rw [hop] at hq
+    have : q = 2 := (Option.some.inj hq).symm
+    subst this
+    simp at hs
+    cases hs with
+    | inl h => subst h; simp [twin] at hor
+    | inr h => simp [h]
+  refine ⟨⟨⟨hcov _ _ rfl, hcov _ _ rfl, trivial⟩, ?_, ?_⟩, ⟨⟨hcov _ _ rfl, hcov _ _ rfl, trivial⟩, ?_, ?_⟩⟩ <;> decide
+
+/-- **With the rule of the fix the page is there again**, on every key of the two files, and what the next
+postprocessing run delivers is what a clean build of the final contents delivers. -/
+theorem shared_key_restored :
+    (∀ k ∈ [200, 201, 202, 203],
+      (runShared twin [1, 2] [200, 201, 202, 203] twinPost (St.init twin [1, 2] twinPost twinEnv) twinDelete).store k =
+        storeOf twin [1, 2] (envAfter twinEnv (twinDelete.map (·.1))) k) ∧
+    (∀ k ∈ [200, 201, 202, 203],
+      (runShared twin [1, 2] [200, 201, 202, 203] twinPost (St.init twin [1, 2] twinPost twinEnv) twinUndo).store k =
+        storeOf twin [1, 2] (envAfter twinEnv (twinUndo.map (·.1))) k) ∧
+    deliver twinPost (runShared twin [1, 2] [200, 201, 202, 203] twinPost (St.init twin [1, 2] twinPost twinEnv) twinDelete) =
+      twinPost (storeOf twin [1, 2] (envAfter twinEnv (twinDelete.map (·.1)))) ∧
+    deliver twinPost (runShared twin [1, 2] [200, 201, 202, 203] twinPost (St.init twin [1, 2] twinPost twinEnv) twinUndo) =
+      twinPost (storeOf twin [1, 2] (envAfter twinEnv (twinUndo.map (·.1)))) := by
+  decide
+
+/-- the witness is not trivial: while both files define `foo` the store holds the page of the file generated last -/
+example : (runShared twin [1, 2] [200, 201, 202, 203] twinPost (St.init twin [1, 2] twinPost twinEnv) [(.update 2 [2, 0], [2])]).store 200
+    = some (20, 2) := by decide
+
 end SnootyVerif.C12
